@@ -235,3 +235,16 @@ def pcKind (s : CState V) (t : Nat) : String :=
   | none => "none"
 
 end SparseV.Interleave
+
+/- the data of the witness schedule used by `C13.cache_iter_race_counterexample` (kept with the model so that the
+driver can print it without importing the property file) -/
+namespace SparseV.C13
+open SparseV SparseV.Interleave SparseV.Cache
+
+def cexDq : Cache Key := [(.transpose [1, 0, 2], .transpose [1, 0, 2])]
+
+def cexProgs : List (List Key) := [[.transpose [2, 1, 0]], [.transpose [0, 2, 1]]]
+
+def cexSched : List Nat := [0, 0, 0, 0, 1, 1, 1, 1, 1, 1, 1, 0]
+
+end SparseV.C13
